@@ -189,14 +189,17 @@ class _TransferSock(fake_net.FakeSock):
 
 
 class _ExcLog(logging.Handler):
-    """log records with exc_info written by the serve-loop thread"""
+    """log records that report an UNHANDLED exception of the serve-loop thread: exc_info at level ERROR or above
+    (logger.exception).  A handled exception that a branch chooses to log with its traceback at a lower level
+    (e.g. the ValueError of an undecodable request at WARNING) is not the internal-error path."""
     def __init__(self):
         super().__init__()
         self.port = None
 
     def emit(self, record):
         port = self.port
-        if record.exc_info and port is not None and record.thread == port.loop_ident:
+        if record.exc_info and record.levelno >= logging.ERROR and port is not None \
+                and record.thread == port.loop_ident:
             cls = record.exc_info[0].__name__ if record.exc_info[0] else "exc"
             port.events.append((port.sock.current, "logexc", cls))
 
